@@ -537,12 +537,14 @@ def c05(pid, tier, seed):
                 ops.append(dict({"op": "inc" if kind == "pos" else "tick", "b": 1, "n": 1}, **tm))
         return {"cfg": cfg, "ops": ops}
 
-    rates = [1, 20, 60, 250, 255] if q else list(range(1, 256))
+    # thorough: every rate costs about five minutes of monitor time, so a spread of rates instead of all 255 (the interval arithmetic has the
+    # same shape for all of them: ceil(10^9 / R) ns; the spread has exact and inexact divisions, the extremes and the neighbours of 250)
+    rates = [1, 20, 60, 250, 255] if q else [1, 2, 3, 7, 10, 16, 20, 24, 30, 50, 60, 64, 100, 120, 125, 128, 144, 200, 240, 249, 250, 251, 254, 255]
     plan = []
-    deep_rates = {1, 2, 3, 7, 20, 33, 60, 100, 144, 200, 250, 255}
+    deep_rates = {1, 3, 20, 60, 250, 255}
     for R in rates:
         sel = cover20 if (q and R in (20, 255)) or not q else cover20[::7]
-        lift = lifted20 if R == 20 or (not q and R in deep_rates) else (lifted20[::2] if R == 250 else lifted20[::4])
+        lift = lifted20 if R == 20 else (lifted20[::2] if R == 250 else (lifted20[::4] if q else lifted20[::16]))
         deep = deep20 + steady if (R in (20, 255) or (not q and R in deep_rates)) else steady[:1]
         plan.append(("single_R%d" % R, lambda R=R, sel=sel, lift=lift, deep=deep: [hist(s, R, "single", False) for s in sel + lift] + [hist(s, R, "single", True) for s in sel[::5]]
                      + [hist(s, R, "single", False) for s in deep]))
